@@ -1605,3 +1605,75 @@ func runC16Enabled(c *Ctx) {
 		c.Undecided("lookups in the available-decoder table by configured name", "-", "none found")
 	}
 }
+
+// ---------- C12.R10: what a reference stands for is sanitised recursively ----------
+func runC12Sanitize(c *Ctx) {
+	p := c.P
+	c.Rule("R10", "COV", "the function that strips confmap's internal (typed value, original text) pairs from a configuration tree also descends into the typed value of such a pair: it never returns the Value field as it is – a whole-value reference that yields a map or list holding further whole-value references would leak the internal representation through ToStringMap/Get/Unmarshal", 1)
+	pk := p.Pkg("confmap")
+	ev := p.LookupType("confmap", "expandedValue")
+	if pk == nil || ev == nil {
+		c.Anchor("confmap.expandedValue")
+		return
+	}
+	n := 0
+	for _, fn := range p.AllSrcFuncs(pk) {
+		if fn.Parent() != nil || fn.Signature.Results().Len() != 1 {
+			continue
+		}
+		if _, isIface := fn.Signature.Results().At(0).Type().Underlying().(*types.Interface); !isIface {
+			continue
+		}
+		// type-switches on expandedValue and returns a map/slice it rebuilt: the sanitiser
+		asserts := false
+		allInstrs(fn, func(in ssa.Instruction) {
+			if ta, ok := in.(*ssa.TypeAssert); ok && namedOf(ta.AssertedType) == ev {
+				asserts = true
+			}
+		})
+		recursive := len(calls(fn, func(ci ssa.CallInstruction) bool { return staticCalleeFn(ci) == fn })) > 0
+		if !asserts || !recursive {
+			continue
+		}
+		for _, r := range returnsOf(fn) {
+			v := resultsOf(r)[0]
+			raw := false
+			var walk func(x ssa.Value, d int)
+			walk = func(x ssa.Value, d int) {
+				if d > 4 {
+					return
+				}
+				switch y := x.(type) {
+				case *ssa.Field:
+					if namedOf(y.X.Type()) == ev && derefStruct(y.X.Type()).Field(y.Field).Name() == "Value" {
+						raw = true
+					}
+				case *ssa.UnOp:
+					if fa, ok := y.X.(*ssa.FieldAddr); ok && derefStruct(fa.X.Type()) != nil && namedOf(fa.X.Type()) == ev && derefStruct(fa.X.Type()).Field(fa.Field).Name() == "Value" {
+						raw = true
+					}
+				case *ssa.Phi:
+					for _, e := range y.Edges {
+						walk(e, d+1)
+					}
+				case *ssa.MakeInterface:
+					walk(y.X, d+1)
+				case *ssa.ChangeInterface:
+					walk(y.X, d+1)
+				}
+			}
+			walk(v, 0)
+			if raw {
+				n++
+				c.Bad("typed value of an expanded pair is sanitised before "+fnName(fn)+" returns it", p.Pos(r.Pos()), "the Value field is returned as it is: when a reference resolves to a map or list whose own entries are whole-value references, the nested internal pairs survive – ToStringMap() yields {k: {j: confmap.expandedValue{Value:83, Original:\"0123\"}}} instead of {k: {j: 83}}")
+			}
+		}
+		if n == 0 {
+			c.OK("typed value of an expanded pair is sanitised before "+fnName(fn)+" returns it", p.Pos(fn.Pos()), "returned through the recursive call")
+			n++
+		}
+	}
+	if n == 0 {
+		c.Undecided("sanitiser of expanded values", "-", "not found")
+	}
+}
